@@ -14,6 +14,7 @@
   * `C18_meta_id` …: a header line sets exactly its own field.
   That equal texts modulo layout are equal token sequences is C14's lexer tie (model vs ANTLR on random layouts).
 -/
+import Cpf.Generated.Tables
 import Cpf.Rules.RuleFile
 
 namespace Cpf.Props.C18
@@ -195,5 +196,24 @@ example :
     extractQuery (lit "/**\r\n * @id java/x\r\n */\r\nFROM a AS b\r\n  WHERE b.c() == \"q\"\r\nSELECT b\r\n")
       = lit "FROM a AS b   WHERE b.c() == \"q\" SELECT b" := by
   decide
+
+/-- Regenerated: the string operations and the decisions of the three functions the reader models mirror
+    (`cmd.ParseQuery`, `cmd.ParseCommentLine`, `cmd.ExtractQueryFromFile`), in source order. The hand-written models
+    in `Cpf.Rules.RuleFile` are read off exactly these: split on "\n" (ci) / bufio.Scanner (file), a line starts the
+    query when its trimmed text has the prefix `predicate` or `FROM`, every query line is appended with one blank,
+    the result is trimmed; a header line is trimmed, loses one leading `*`, is trimmed again and split on blanks. -/
+theorem C18_reader_shapes :
+    Cpf.Generated.ruleReaderCiDecisions =
+      ["if:strings.HasPrefix(strings.TrimSpace(line), \"/*\")", "has-else", "if:strings.HasPrefix(strings.TrimSpace(line), \"predicate\") || strings.HasPrefix(strings.TrimSpace(line), \"FROM\")", "has-else", "if:findLineFound", "has-else", "if:commentLineFound", "has-else", "if:strings.HasPrefix(strings.TrimSpace(line), \"*/\")", "return:rule"] ∧
+    Cpf.Generated.ruleReaderCiCalls =
+      ["call:strings.Split(query, \"\\n\")", "call:strings.HasPrefix(strings.TrimSpace(line), \"/*\")", "call:strings.TrimSpace(line)", "call:strings.HasPrefix(strings.TrimSpace(line), \"predicate\")", "call:strings.TrimSpace(line)", "call:strings.HasPrefix(strings.TrimSpace(line), \"FROM\")", "call:strings.TrimSpace(line)", "call:strings.HasPrefix(strings.TrimSpace(line), \"*/\")", "call:strings.TrimSpace(line)", "call:strings.TrimSpace(query)"] ∧
+    Cpf.Generated.ruleCommentLineDecisions =
+      ["if:len(parts) > 1", "return:parts[0],strings.Join(parts[1:], \" \")", "return:\"\",\"\""] ∧
+    Cpf.Generated.ruleCommentLineCalls =
+      ["call:strings.TrimSpace(line)", "call:strings.TrimPrefix(comment, \"*\")", "call:strings.TrimSpace(comment)", "call:strings.Split(comment, \" \")", "call:strings.Join(parts[1:], \" \")"] ∧
+    Cpf.Generated.ruleReaderFileDecisions =
+      ["if:err != nil", "return:\"\",err", "if:err != nil", "if:strings.HasPrefix(strings.TrimSpace(line), \"predicate\") || strings.HasPrefix(strings.TrimSpace(line), \"FROM\")", "has-else", "if:findLineFound", "if:err != nil", "return:\"\",err", "return:query,nil"] ∧
+    Cpf.Generated.ruleReaderFileCalls =
+      ["call:bufio.NewScanner(queryFileContent)", "call:strings.HasPrefix(strings.TrimSpace(line), \"predicate\")", "call:strings.TrimSpace(line)", "call:strings.HasPrefix(strings.TrimSpace(line), \"FROM\")", "call:strings.TrimSpace(line)", "call:strings.TrimSpace(query)"] := by decide
 
 end Cpf.Props.C18
